@@ -13,7 +13,9 @@ M1 == <<[k |-> K("int", "1"), v |-> 100], [k |-> K("str", "\"a\""), v |-> 101], 
 O1 == <<[k |-> NameKey("a"), v |-> 110], [k |-> NameKey("a!"), v |-> 112], [k |-> NameKey("c"), v |-> 111]>>
 O2 == <<[k |-> NameKey("b"), v |-> 120], [k |-> NameKey("_p"), v |-> 121], [k |-> NameKey("_q"), v |-> 122]>>
 M2 == <<[k |-> K("arr", "[1]"), v |-> 200], [k |-> K("int", "2"), v |-> 201], [k |-> K("obj", "{a: 1}"), v |-> 202]>>
-Operand(x) == CASE x = "M1" -> M1 [] x = "M2" -> M2 [] x = "O1" -> O1 [] x = "O2" -> O2
+(* an operand that a conversion built (Arr#M compares scalar keys only): it holds the array key [1] twice; unpacked with ** the first one stays *)
+M3 == <<[k |-> K("arr", "[1]"), v |-> 300], [k |-> K("arr", "[1]"), v |-> 301], [k |-> K("int", "2"), v |-> 302]>>
+Operand(x) == CASE x = "M1" -> M1 [] x = "M2" -> M2 [] x = "O1" -> O1 [] x = "O2" -> O2 [] x = "M3" -> M3
 RECURSIVE Flatten(_)
 Flatten(xs) == IF xs = <<>> THEN <<>> ELSE Operand(Head(xs)) \o Flatten(Tail(xs))
 
@@ -26,7 +28,7 @@ Init ==
      /\ spreads \in {<<>>, <<"O1">>, <<"O2">>, <<"O1", "O2">>, <<"O2", "O1">>}
      /\ nilat \in 0..Len(keys)
   \/ /\ kind = "map" /\ keys \in UNION {IdxSeqs(Len(MapKeys), l) : l \in 0..MaxPairs}
-     /\ spreads \in {<<>>, <<"M1">>, <<"O1">>, <<"M1", "O1">>, <<"O2", "M1">>, <<"M1", "M2">>, <<"M2", "M1">>, <<"M2", "O2", "M1">>}
+     /\ spreads \in {<<>>, <<"M1">>, <<"O1">>, <<"M1", "O1">>, <<"O2", "M1">>, <<"M1", "M2">>, <<"M2", "M1">>, <<"M2", "O2", "M1">>, <<"M3">>, <<"M3", "M1">>, <<"M2", "M3">>}
      /\ nilat \in 0..Len(keys)
 Next == UNCHANGED vars
 
